@@ -108,10 +108,11 @@ type Host struct {
 	wd        [2]*watchdog // simulated interrupting goroutines (only when the engine asks for them)
 	wdPayload [2]*intrPayload
 
-	logSwallow int // nested InterruptedErrors dropped by a sloppy host native (mode 3)
-	maxDepth   int // deepest call stack seen at a probe during the current call
-	nestDepth  int // native->JS nesting depth right now
-	inJob      bool
+	nestedProblem string
+	logSwallow    int // nested InterruptedErrors dropped by a sloppy host native (mode 3)
+	maxDepth      int // deepest call stack seen at a probe during the current call
+	nestDepth     int // native->JS nesting depth right now
+	inJob         bool
 
 	store map[string]string
 
